@@ -134,6 +134,24 @@ def cases():
     add("coll-variants-dup", "collision", root({"E": {"type": "string", "enum": ["a", "a"]}}))
     add("coll-variants-x", "collision", root({"E": {"type": "string", "enum": ["a", "a_"]}}))
     add("coll-variants-sym", "collision", root({"E": {"type": "string", "enum": ["+", "-", "=", "<", ">"]}}))
+    add("coll-variants-nonadjacent", "collision", root({"E": {"type": "string", "enum": ["read", "write", "read*"]}}),
+        note="first and third become Read with an unrelated value between them")
+    add("coll-variants-nonadjacent-2", "collision", root({"E": {"type": "string", "enum": ["Read", "write", "exec", "list", "read"]}}))
+    add("coll-variants-first-last-panic", "collision", root({"E": {"type": "string", "enum": ["a", "w", "A"]}}),
+        note="X substitution does not separate a / A: must panic at add")
+    add("coll-variants-three-way", "collision", root({"E": {"type": "string", "enum": ["a", "w", "a_", "x", "A"]}}),
+        note="X substitution resolves a / a_ but not a / A")
+    add("coll-variants-digit-prefix", "collision", root({"E": {"type": "string", "enum": ["1a", "w", "x1a"]}}))
+    add("coll-variants-adjacent-fixture", "collision", root({"E": {"type": "string", "enum": ["2.5GBASE-T", "25GBASE-T", "10GBASE-T"]}}))
+    add("coll-tagged-variants-nonadjacent", "collision",
+        root({"E": {"oneOf": [obj({n: I}, [n], additionalProperties=False) for n in ("read", "write", "read*")]}}))
+    add("coll-internal-variants-nonadjacent", "collision",
+        root({"E": {"oneOf": [obj({"tag": {"type": "string", "enum": [n]}, "v": I}, ["tag"]) for n in ("Read", "write", "read")]}}))
+    add("coll-extra-after", "collision", root({"P": obj({"extra": S, "zone": S}, additionalProperties=I)}),
+        note="a property sorting AFTER `extra` next to the synthesised flattened field")
+    add("coll-extra-before", "collision", root({"P": obj({"alpha": S, "extra": S}, additionalProperties=I)}))
+    add("coll-extra-both", "collision", root({"P": obj({"alpha": S, "extra": S, "zone": S}, additionalProperties=I)}))
+    add("coll-extra-absent", "collision", root({"P": obj({"alpha": S, "zone": S}, additionalProperties=I)}), note="no collision: must compile")
     add("coll-derived-name", "collision",
         root({"BXy": obj({"q": ref("b")}, ["q"]), "b": obj({"xy": obj({"z": I}, ["z"])}, ["xy"])}), note="C07-1")
     add("coll-derived-name-2", "collision",
